@@ -758,7 +758,9 @@ impl Client {
     /// This is the finalize connection sequence
     /// sent from client to server
     fn write_client_finalize<S: Read + Write>(&self, mcs: &mut mcs::Client<S>) -> RdpResult<()> {
-        self.write_data_pdu(ts_synchronize_pdu(Some(self.channel_id)), mcs)?;
+        // targetUser is the MCS channel id of the user the PDU is meant for: the server (0x03EA, see originatorId),
+        // not the id of the I/O channel
+        self.write_data_pdu(ts_synchronize_pdu(Some(0x03EA)), mcs)?;
         self.write_data_pdu(ts_control_pdu(Some(Action::CtrlactionCooperate)), mcs)?;
         self.write_data_pdu(ts_control_pdu(Some(Action::CtrlactionRequestControl)), mcs)?;
         self.write_data_pdu(ts_font_list_pdu(), mcs)
